@@ -120,7 +120,8 @@ Step(s, e) ==
          ELSE IF s.stage = "selected" /\ e.kernel # s.kernel THEN Fail("semantics-on-different-kernel")
          ELSE IF s.haveWanted /\ ToSet(e.kernel) # (s.wanted \cap s.parsed) THEN Fail("lines-selection-not-exact")
          ELSE IF \E i \in DOMAIN e.rows : Len(e.rows[i]) # e.ports THEN Fail("row-width")
-         ELSE IF s.fd.on /\ e.arch # s.arch THEN Fail("frontdoor-model-differs-from-parser-arch")
+         \* "?": the recorder could not tell which model file the semantics work with (no claim then)
+         ELSE IF s.fd.on /\ e.arch # "?" /\ e.arch # s.arch THEN Fail("frontdoor-model-differs-from-parser-arch")
          ELSE IF s.fd.on /\ e.isa # s.isa THEN Fail("frontdoor-model-isa-differs-from-parser-isa")
          ELSE [s EXCEPT !.stage = "semantics", !.kernel = e.kernel, !.rows = e.rows, !.tp = e.tp,
                         !.lat = e.lat, !.latwo = e.latwo, !.lds = e.lds, !.nports = e.ports]
@@ -167,7 +168,7 @@ Step(s, e) ==
               ELSE IF \E i \in DOMAIN e.lcd :
                         e.lcd[i][1] # CycleLat(s.g2, n, { Idx(s.kernel, e.lcd[i][2][j]) : j \in DOMAIN e.lcd[i][2] })
                    THEN Fail("lcd-latency")
-              ELSE IF s.fd.on /\ e.timeout # s.fd.timeout THEN Fail("frontdoor-lcd-timeout-option-not-honoured")
+              ELSE IF s.fd.on /\ e.timeout # s.fd.timeout THEN Fail("order:lcd-search-called-with-other-limit")   \* how the limit is handed on is the code's business (C19 judges the effect)
               ELSE [s EXCEPT !.stage = "lcd", !.cyc = obs, !.lcdMax = IF lats = {} THEN 0 ELSE Max(lats),
                              !.timedOut = e.timedOut]
     [] e.ev = "cp" ->
